@@ -136,6 +136,8 @@ func runC02(c *Ctx) {
 		checkStartupWalk(c, "C02-R4")
 		// disconnects are acted upon only once the wallet is marked synced: the one place that marks it always does
 		checkRescanFinishedAlwaysMarksSynced(c, "C02-R4")
+		checkStoreStateIsResetByRollback(c, "C02-R4")
+		checkDetachedBlockRecordIsTheWalkedOne(c, "C02-R3")
 		worker := wtxFn(c, "C02-R4", "rollback") // the wrapper itself where the two were folded into one
 		c.Check("C02-R4", "Rollback-reaches-rollback", roll.Pos(), worker == roll || p.reachSet(roll)[worker], "Store.Rollback no longer reaches rollback")
 		// ... on every success path: block records exist only for blocks that hold a wallet transaction, so no
